@@ -393,7 +393,9 @@ func runR73(c *core.Ctx) {
 		{"ReadResponseHeader", true, "MagicResponse", []string{"Opcode", "KeyLength", "ExtraLength", "Status", "TotalBodyLength", "OpaqueToken"}},
 		{"writeResponseHeader", false, "", []string{"Opcode", "KeyLength", "ExtraLength", "Status", "TotalBodyLength", "OpaqueToken"}},
 	} {
-		fn := c.P.Func("protocol/binprot", cd.name)
+		fn := findFunc(c, "protocol/binprot", cd.name, map[string]func(*ssa.Function) bool{
+			"readRequestHeader": roleReqHeaderReader, "writeRequestHeader": roleReqHeaderWriter, "writeResponseHeader": roleResHeaderWriter,
+		}[cd.name])
 		key := "binprot." + cd.name + "#layout"
 		if fn == nil {
 			c.Undecided("R7.3", key, "-", "codec not found")
@@ -457,7 +459,7 @@ func runR73(c *core.Ctx) {
 		c.Check(len(bad) == 0, "R7.3", key, c.P.Pos(fn.Pos()), fmt.Sprintf("%d fields at the specification's offsets", len(cd.fields)), strings.Join(bad, "; "))
 	}
 	// request headers built by the serialisers carry the request magic
-	if mk := c.P.Func("protocol/binprot", "makeRequestHeader"); mk != nil {
+	if mk := findFunc(c, "protocol/binprot", "makeRequestHeader", roleMakeReqHeader); mk != nil {
 		want, _ := namedConst(c, "protocol/binprot", "MagicRequest")
 		good := false
 		ssax.Instrs(mk, func(ins ssa.Instruction) {
@@ -507,7 +509,7 @@ func literalField(al *ssa.Alloc, field string) ssa.Value {
 func runR74(c *core.Ctx) {
 	const rel = "protocol/binprot"
 	for _, fn := range pkgFuncs(c, rel) {
-		if !isOneOf(fn.Name(), "setRequest", "appendPrependRequest", "Parse") {
+		if fn.Parent() != nil {
 			continue
 		}
 		counts := map[string]int{}
@@ -539,7 +541,7 @@ func runR74(c *core.Ctx) {
 			if hasField(al.Type().(*types.Pointer).Elem(), "Exptime") {
 				ev := literalField(al, "Exptime")
 				ec = isCallTo(ev, "binprot.readUInt32", 0)
-				if fn.Name() == "appendPrependRequest" {
+				if noExtrasDecoder(fn) {
 					// no extras: flags and exptime are zero
 					if k, ok := ssax.ConstInt(ev); !ok || k != 0 {
 						bad = append(bad, "append/prepend carry no extras, Exptime must be 0")
@@ -548,7 +550,7 @@ func runR74(c *core.Ctx) {
 					bad = append(bad, "Exptime is not read from the extras")
 				}
 			}
-			if hasField(al.Type().(*types.Pointer).Elem(), "Flags") && fn.Name() != "appendPrependRequest" {
+			if hasField(al.Type().(*types.Pointer).Elem(), "Flags") && !noExtrasDecoder(fn) {
 				fc = isCallTo(literalField(al, "Flags"), "binprot.readUInt32", 0)
 				if fc == nil {
 					bad = append(bad, "Flags is not read from the extras")
@@ -947,4 +949,9 @@ func runR78(c *core.Ctx) {
 		})
 		c.Check(good, "R7.8", "(textprot.TextParser).Parse#get-keys", c.P.Pos(fn.Pos()), "get keys are the words after the command", "get does not take its keys from words 1.. of the command line")
 	}
+}
+
+// noExtrasDecoder: a data-command decoder that reads no extras words (append/prepend carry none).
+func noExtrasDecoder(fn *ssa.Function) bool {
+	return !callsAny(fn, pBinprot+".readUInt32") && callsAny(fn, "io.ReadAtLeast")
 }
